@@ -929,6 +929,52 @@ pub fn check_harness<H: Harness>(h: &H, cfg: &RunCfg) -> PartResult {
     let path_of = |k: usize| match &kinds[k] {
         QKind::Feasible { path, .. } | QKind::Goal { path, .. } | QKind::CutJustify { path, .. } | QKind::Defined { path, .. } | QKind::Twin { path, .. } | QKind::Witness { path, .. } => *path,
     };
+    // native pre-pass: the points the solver produced for the feasible paths are run through the real code
+    // natively; goals that already fail there are violations (no need to ask the solver about them again)
+    let mut failed_natively: BTreeSet<String> = BTreeSet::new();
+    {
+        let mut stage1_models0: HashMap<usize, BTreeMap<String, f64>> = HashMap::new();
+        for (j, k) in stage1.iter().enumerate() {
+            if let (QKind::Feasible { path, .. }, Answer::Sat(m)) = (&kinds[*k], &v1[j].answer) {
+                stage1_models0.entry(*path).or_default().extend(m.clone());
+            }
+        }
+        let mut fill = cfg.seed ^ 0x77aa;
+        let mut tried = 0;
+        // harnesses without path conditions have no solver-produced point: a few seeded points instead
+        if stage1_models0.is_empty() {
+            for k in 0..8usize {
+                stage1_models0.insert(usize::MAX - k, BTreeMap::new());
+            }
+        }
+        let mut paths_sorted: Vec<&usize> = stage1_models0.keys().collect();
+        paths_sorted.sort();
+        for p in paths_sorted {
+            if pruned.contains(p) || tried >= 400 {
+                continue;
+            }
+            tried += 1;
+            let (o, panic, full) = native_run(h, &stage1_models0[p], &mut fill);
+            if panic.is_some() || !assumes_hold(&o) {
+                continue;
+            }
+            for g in &o.goals {
+                if failed_natively.contains(&g.name) {
+                    continue;
+                }
+                if let Some(d) = native_violation(g, h.tol()) {
+                    failed_natively.insert(g.name.clone());
+                    res.violations.push(Violation {
+                        goal: g.name.clone(),
+                        site: h.name(),
+                        witness_class: "goal-fails".into(),
+                        desc: format!("{} (at the point the solver produced for path {})", d, p),
+                        replay: json!({"harness": h.name(), "goal": g.name, "model": full}),
+                    });
+                }
+            }
+        }
+    }
     // existential witnesses: first try the points the feasibility stage already produced
     let mut stage1_models: HashMap<usize, BTreeMap<String, f64>> = HashMap::new();
     for (j, k) in stage1.iter().enumerate() {
@@ -952,6 +998,7 @@ pub fn check_harness<H: Harness>(h: &H, cfg: &RunCfg) -> PartResult {
     let stage2: Vec<usize> = (0..queries.len())
         .filter(|k| !matches!(kinds[*k], QKind::Feasible { .. }) && !pruned.contains(&path_of(*k)))
         .filter(|k| !matches!(&kinds[*k], QKind::Witness { name, .. } if witness_found_early.contains(name)))
+        .filter(|k| !matches!(&kinds[*k], QKind::Goal { name, .. } if failed_natively.contains(name)))
         .collect();
     let q2: Vec<Query> = stage2.iter().map(|k| queries[*k].clone()).collect();
     let (v2, st2) = run_queries(&solver, &q2);
